@@ -304,7 +304,7 @@ class FluxScriptAdapter(SchedulerScriptAdapter):
         """
         # If we don"t have any jobs to check, just return status OK.
         if not joblist:
-            return CancelCode.OK
+            return CancellationRecord(CancelCode.OK, 0)
 
         c_status, r_code = self._interface.cancel(joblist)
         return CancellationRecord(c_status, r_code)
